@@ -16,6 +16,9 @@ CHECKS = {
  "C18": dict(technique="TLA+ spec (LocustStore.tla) invariants QuiescentDisk/WalAccounting; replay compares the directory listing with the catalogue accessor after every force_flush",
              text="TLC checks that a completed flush leaves exactly catalogue + named partition files, no log segments, no temp files and a zero accounted log size in every reachable quiescent state; the replay lists the real directory after each force_flush and compares it with the files named by the in-memory catalogue (read-only accessor), wal_size and the unflushed range.",
              note="blocking-ingestion liveness is checked in thorough tier only; file names are computed through the real sanitize/partition_filename wrappers", ref="5 C18"),
+ "C09": dict(technique="TLA+ spec (LocustStore.tla, file-system micro-steps, Crash anywhere incl. during recovery) model-checked with TLC; crash images at every primitive file-system effect of TLC-emitted workloads reopened and compared with the spec's admissible contents",
+             text="TLC checks Durable/ContentOK/NoFailure with create/write/rename micro-steps and up to two crashes anywhere (also inside recovery), rejects the historical temp-file mutant, and (thorough) checks RecoveryTerminates under fairness. The binding photographs the real directory after every file-system effect (plus torn temp files), reopens each image under a deadline, compares the content with {acknowledged, acknowledged + in-flight whole}, flushes, crashes the recovery again, and ingests into the recovered database.",
+             note="loss of un-fsynced bytes is not simulated (directory copies see written data); partition-file temp steps are not modelled in the spec (unreferenced until the catalogue is stored)", ref="5 C09, 4.4"),
 }
 PENDING = ["C01","C02","C03","C04","C05","C06","C09","C10","C11","C12","C14","C15","C16","C17"]
 def main():
